@@ -732,6 +732,87 @@ impl_battery!(
     (i32s(), opt(s()), vec_of(i32s(), 2), opt(any::<bool>())).prop_map(|(a, b, c, d)| TupleAttr(a, b, c, d))
 );
 
+/// 38. newtype around a collection
+#[derive(Form, Clone, Debug, Serialize, Deserialize)]
+#[form(newtype)]
+pub struct NewtypeV(Vec<i32>);
+impl_battery!(NewtypeV, vec_of(i32s(), 3).prop_map(NewtypeV));
+
+/// 39. less usual things in attribute position
+#[derive(Form, Clone, Debug, Serialize, Deserialize)]
+pub struct AttrExtras {
+    #[form(attr)]
+    vo: Vec<Option<i32>>,
+    #[form(attr)]
+    t: (i32, String),
+    #[form(attr)]
+    u: (),
+    #[form(attr)]
+    nv: NewtypeV,
+    #[form(attr)]
+    cs: Vec<Color>,
+    #[form(attr)]
+    #[serde(with = "f64_bits")]
+    f: f64,
+    x: i32,
+}
+impl_battery!(
+    AttrExtras,
+    (vec_of(opt(i32s()), 3), (i32s(), s()), NewtypeV::arb(), vec_of(Color::arb(), 2), f64s(), i32s())
+        .prop_map(|(vo, t, nv, cs, f, x)| AttrExtras { vo, t, u: (), nv, cs, f, x })
+);
+
+/// 40. less usual things in header position
+#[derive(Form, Clone, Debug, Serialize, Deserialize)]
+pub struct HeaderExtras {
+    #[form(header_body)]
+    o: Option<i32>,
+    #[form(header)]
+    m: HashMap<String, i32>,
+    #[form(header)]
+    vo: Vec<Option<i32>>,
+    #[form(header)]
+    big: u64,
+    #[form(header)]
+    #[serde(with = "f64_bits")]
+    f: f64,
+    #[form(header)]
+    nv: NewtypeV,
+    y: Option<Vec<Option<i32>>>,
+}
+impl_battery!(
+    HeaderExtras,
+    (
+        opt(i32s()),
+        map_of(key(), i32s(), 2),
+        vec_of(opt(i32s()), 3),
+        u64s(),
+        f64s(),
+        NewtypeV::arb(),
+        opt(vec_of(opt(i32s()), 2))
+    )
+        .prop_map(|(o, m, vo, big, f, nv, y)| HeaderExtras { o, m, vo, big, f, nv, y })
+);
+
+/// 41. body replaced by a map
+#[derive(Form, Clone, Debug, Serialize, Deserialize)]
+pub struct BodyMap {
+    #[form(header)]
+    h: Option<String>,
+    #[form(body)]
+    m: HashMap<String, Option<i32>>,
+}
+impl_battery!(BodyMap, (opt(s()), map_of(key(), opt(i32s()), 3)).prop_map(|(h, m)| BodyMap { h, m }));
+
+/// 42. body replaced by a simple optional value
+#[derive(Form, Clone, Debug, Serialize, Deserialize)]
+pub struct BodyOpt {
+    a: i32,
+    #[form(body)]
+    o: Option<i32>,
+}
+impl_battery!(BodyOpt, (i32s(), opt(i32s())).prop_map(|(a, o)| BodyOpt { a, o }));
+
 // built-in implementations at top level (wrapped so that they have a name and serde)
 macro_rules! builtin {
     ($name:ident, $ty:ty, $strat:expr) => {
@@ -851,6 +932,11 @@ battery! {
     Sequences: Sequences => ["nested", "collection", "attr", "header", "header_body", "body"],
     Holder: Holder => ["attr", "header", "body", "nested"],
     TupleAttr: TupleAttr => ["attr", "header_body", "rename"],
+    NewtypeV: NewtypeV => ["newtype", "collection"],
+    AttrExtras: AttrExtras => ["attr", "collection", "nested", "newtype"],
+    HeaderExtras: HeaderExtras => ["header", "header_body", "collection", "newtype"],
+    BodyMap: BodyMap => ["header", "body", "collection"],
+    BodyOpt: BodyOpt => ["body", "option"],
     BVecI32: BVecI32 => ["builtin"],
     BMap: BMap => ["builtin"],
     BOptStr: BOptStr => ["builtin"],
